@@ -463,7 +463,7 @@ class EGen:
         out = []
         ts = rng.choice([0, 1700000000000000000, 1000])
         for l in lines:
-            ts += rng.choice([1, 7, 1000, 10**9]) if not (ties and rng.random() < 0.3) else 0
+            ts += rng.choice([1, 7, 1000, 10**9, 123456789]) if not (ties and rng.random() < 0.3) else 0      # incl. a non-zero millisecond part
             a = self.attrs() if with_attrs else []
             # a constant resource attribute for the always-true selector
             res = [("job", "x")] + (self.attrs(["host", "app"]) if rng.random() < 0.4 else [])
